@@ -1442,7 +1442,8 @@ class Gen(object):
         self.avoided[what] = self.avoided.get(what, 0) + 1
 
     def chance(self, p):
-        return self.r.random() < p
+        # integers, not random(): Hypothesis-backed generators favour "simple" floats such as 0.0
+        return self.r.randint(0, 999) < p * 1000
 
     def pick(self, seq):
         return seq[self.r.randint(0, len(seq) - 1)]
@@ -1515,7 +1516,7 @@ class Gen(object):
         elif m == 4:
             v = self.r.randint(1, 9999) / 1000.0
         else:
-            v = round(math.exp(self.r.random() * 8 - 4), self.r.randint(1, 6))
+            v = round(math.exp(self.r.randint(0, 8000) / 1000.0 - 4), self.r.randint(1, 6))
             if v <= 0:
                 v = 0.5
         t = _fmt_num(v)
@@ -1731,6 +1732,12 @@ class Gen(object):
         return Nd(self.at(a, P_ADD) + self.sp(op) + self.at(b, P_ADD), P_REL, 0, 1, True)
 
     def logical(self, d):
+        if self.chance(0.1):
+            # NOT only where the bitwise and the logical reading agree for every operand value: operands 0 / -1
+            # (recorded finding: NOT of a true relation, value 1, is -2 = true)
+            self.avoid("not_only_on_operands_0_or_minus_1")
+            r_ = self.relation(d)
+            return Nd("(" + self.kw("NOT") + " (-(" + r_.txt + ")))", P_ATOM, -1, 0, True)
         op = self.pick(["AND", "AND", "OR", "OR", "XOR"])
         if self.chance(0.6):
             a, b = self.relation(d), self.relation(d)
